@@ -151,6 +151,12 @@ func runC16(e *Env) {
 				r.OK("E6.panic", key, posStr, why)
 				continue
 			}
+			symWhy, symOK := "", false
+			withCallSites(fns, func() { symWhy, symOK = symbolicBound(site.Instr) })
+			if symOK {
+				r.OK("E6.panic", key, posStr, symWhy)
+				continue
+			}
 			r.Bad("E6.panic", key, posStr, "unproven bounds check with a non-constant index and no recognisable guard: can panic on arbitrary text")
 			continue
 		}
